@@ -28,7 +28,7 @@ EXTENDS Integers, Sequences, FiniteSets, TLC
 
 OpIds == {"1", "2", "P", ""}          \* "" = subscribe without an id (if the server starts it at all)
 
-NoOp == [st |-> "none", stop |-> FALSE, cause |-> "", inc |-> 0, kind |-> "", owe |-> <<>>]
+NoOp == [st |-> "none", stop |-> FALSE, cause |-> "", inc |-> 0, kind |-> "", owe |-> <<>>, optn |-> {}]
 
 InitMon(p) ==
   [proto |-> p,
@@ -62,13 +62,14 @@ Ctx(m, id) == IF id \in OpIds
                    \o (IF m.wif THEN "/write-in-flight" ELSE "")
               ELSE "none//"
 
-SubSyms  == {"sub1q", "sub1s", "sub2q", "sub2s", "subPq", "missingid"}
+\* "sub1dq" / "sub2ds": the SAME document `query Q {..} subscription S {..}`, selected by operationName Q (id 1) / S (id 2)
+SubSyms  == {"sub1q", "sub1s", "sub2q", "sub2s", "subPq", "missingid", "sub1dq", "sub2ds"}
 \* "subbad" = subscribe/start for id "1" whose payload cannot be deserialized (missing, string, array, number, null,
 \* non-string query); "initrej" = connection_init with a payload the InitFunc refuses; "readerr" = the transport
 \* reports a read error instead of a message
 CompSyms == {"comp1", "comp2", "comp9"}
-SubId(sym)  == CASE sym \in {"sub1q", "sub1s"} -> "1" [] sym \in {"sub2q", "sub2s"} -> "2" [] sym = "subPq" -> "P" [] OTHER -> ""
-SubKind(sym) == IF sym \in {"sub1s", "sub2s"} THEN "s" ELSE "q"
+SubId(sym)  == CASE sym \in {"sub1q", "sub1s", "sub1dq"} -> "1" [] sym \in {"sub2q", "sub2s", "sub2ds"} -> "2" [] sym = "subPq" -> "P" [] OTHER -> ""
+SubKind(sym) == IF sym \in {"sub1s", "sub2s", "sub2ds"} THEN "s" ELSE "q"
 CompId(sym) == CASE sym = "comp1" -> "1" [] sym = "comp2" -> "2" [] OTHER -> "9"
 
 \* every client message / read error: the handler is busy with it; a good message disarms the read-error time-out
@@ -81,7 +82,7 @@ InCtx(m0, sym) == IF sym \in SubSyms THEN Ctx(m0, SubId(sym))
 
 \* a subscribe/start that the protocol lets through: a new incarnation of the operation
 Activate(m, id, kind, k) ==
-  [m EXCEPT !.op[id] = [st |-> "active", stop |-> FALSE, cause |-> "", inc |-> k, kind |-> kind, owe |-> <<>>]]
+  [m EXCEPT !.op[id] = [st |-> "active", stop |-> FALSE, cause |-> "", inc |-> k, kind |-> kind, owe |-> <<>>, optn |-> {}]]
 
 \* client complete/stop
 ClientStop(m, id) ==
@@ -98,12 +99,16 @@ OutData(m, e) ==
   LET id == e.id IN
   CASE id = ""               -> Reject(m, "OutputAllowed", "message-without-id", e.a)
     [] St(m, id) = "none"    -> Reject(m, "OutputAllowed", "unknown-id", e.a)
+    \* the payload belongs to an operation that was started later than the one this id stands for: one operation's
+    \* data went out under another operation's id
+    [] id \in OpIds /\ e.k > m.op[id].inc -> Reject(m, "NothingAfterTerminal", "data-of-another-operation", m.op[id].st)
     [] St(m, id) = "terminal" -> Reject(m, "NothingAfterTerminal", "after-terminal", m.op[id].cause)
     [] OTHER ->
        LET o == m.op[id] IN
        IF e.k # o.inc THEN Reject(m, "NothingAfterTerminal", "stale-incarnation", e.a)
        ELSE IF o.owe # <<>> /\ Head(o.owe) = Owe("next", e.n)
             THEN [m EXCEPT !.op[id].owe = Tail(o.owe)]
+       ELSE IF e.n \in o.optn THEN [m EXCEPT !.op[id].optn = o.optn \ {e.n}]
             ELSE Reject(m, "OutputAllowed", "unsolicited-data", e.a)
 
 \* (graphql-ws refuses a start for an active id with error(id): on the wire that reply looks like the
@@ -174,6 +179,10 @@ Exec(m, e) ==
   IF e.id \notin OpIds THEN Reject(m, "Harness", "exec-of-unknown-op", e.id)
   ELSE IF m.op[e.id].st = "none" \/ m.op[e.id].inc < e.k
        THEN Reject(m, "NoStartBeforeInit", "operation-started-without-accepted-subscribe", m.conn)
+       \* the operation the client selected (by operationName) is the one that runs: a subscription is executed as a
+       \* subscription, a query as a query (e.a = the type the server's executor reports)
+       ELSE IF m.op[e.id].inc = e.k /\ e.a \in {"q", "s"} /\ e.a # m.op[e.id].kind
+       THEN Reject(m, "OneTerminal", "operation-executed-as-wrong-type", e.a)
        ELSE m
 
 Live(m, id, k) == id \in OpIds /\ m.op[id].st = "active" /\ m.op[id].inc = k /\ m.conn # "closed" /\ m.hs # "exited"
@@ -192,7 +201,10 @@ Eng(m, e) ==
           CASE e.a = "data"   -> <<Owe("next", e.n)>>
             [] e.a = "result" -> <<Owe("next", e.n), Owe("complete", 0)>>
             [] e.a = "error"  -> <<Owe("error", 0)>>
-            [] OTHER          -> <<>>]
+            [] OTHER          -> <<>>,
+          \* "qflush": a query flushes a chunk before its result (incremental delivery). The engine has no channel for it:
+          \* the chunk may be sent as a data message of THIS query or dropped - never under another id.
+          !.op[e.id].optn = IF e.a = "qflush" THEN m.op[e.id].optn \cup {e.n} ELSE m.op[e.id].optn]
 
 \* the engine has finished dealing with the event: what the event owed must have been sent, unless
 \* the client stopped the operation meanwhile (then the server may drop it)
